@@ -649,11 +649,12 @@ pub fn npo_cells_run(ctx: &Ctx, idx: u64, out: &mut RunOut) {
     use crate::props::{c08, c10};
     use p3_circuit::ops::Poseidon2Config;
     let mut rng = Rng::new(ctx.seed, "C04-npo", idx);
-    let family = ["a2", "a4", "raw", "q5"][(idx / 4 % 4) as usize];
+    // C04 runs this arm on every fourth run, C11 on one run in two hundred: rotate per arm run
+    let family = ["a2", "a4", "raw", "q5", "p1"][(if ctx.prop == "C11" { idx / 200 } else { idx / 4 } % 5) as usize];
     let hs = mix(mix(ctx.seed, idx), 0x6e63);
     foldhash::sim::set_seed(hs);
     match family {
-        "a2" | "a4" | "q5" => {
+        "a2" | "a4" | "q5" | "p1" => {
             let uni = if family == "a4" { "U-KB4-A4" } else { "U-KB4" };
             let shape = c08::draw_shape(&mut rng, uni, ctx.tier);
             let max_h = shape.dims.iter().map(|d| d.0).max().unwrap();
@@ -662,15 +663,19 @@ pub fn npo_cells_run(ctx: &Ctx, idx: u64, out: &mut RunOut) {
             match family {
                 "a4" => {
                     let b = crate::core::pool::observe(|| c08::kb4a4::build_and_run(&shape, index)).unwrap_or_else(Err);
-                    npo_cells_core::<crate::uni::Kb4>(ctx, idx, family, b, Poseidon2Config::KOALA_BEAR_D4_W32, desc, &|s, i| c08::kb4a4::build_and_run(s, i), &mut rng, out)
+                    npo_cells_core::<crate::uni::Kb4>(ctx, idx, family, b, Poseidon2Config::KOALA_BEAR_D4_W32.into(), desc, &|s, i| c08::kb4a4::build_and_run(s, i), &mut rng, out)
+                }
+                "p1" => {
+                    let b = crate::core::pool::observe(|| c08::kb4p1::build_and_run(&shape, index)).unwrap_or_else(Err);
+                    npo_cells_core::<crate::uni::Kb4>(ctx, idx, family, b, p3_circuit::ops::Poseidon1Config::KOALA_BEAR_D4_W16.into(), desc, &|s, i| c08::kb4p1::build_and_run(s, i), &mut rng, out)
                 }
                 "q5" => {
                     let b = crate::core::pool::observe(|| c08::kb5q::build_and_run(&shape, index)).unwrap_or_else(Err);
-                    npo_cells_core::<crate::uni::Kb5q>(ctx, idx, family, b, Poseidon2Config::KOALA_BEAR_D1_W16, desc, &|s, i| c08::kb5q::build_and_run(s, i), &mut rng, out)
+                    npo_cells_core::<crate::uni::Kb5q>(ctx, idx, family, b, Poseidon2Config::KOALA_BEAR_D1_W16.into(), desc, &|s, i| c08::kb5q::build_and_run(s, i), &mut rng, out)
                 }
                 _ => {
                     let b = crate::core::pool::observe(|| c08::kb4::build_and_run(&shape, index)).unwrap_or_else(Err);
-                    npo_cells_core::<crate::uni::Kb4>(ctx, idx, family, b, Poseidon2Config::KOALA_BEAR_D4_W16, desc, &|s, i| c08::kb4::build_and_run(s, i), &mut rng, out)
+                    npo_cells_core::<crate::uni::Kb4>(ctx, idx, family, b, Poseidon2Config::KOALA_BEAR_D4_W16.into(), desc, &|s, i| c08::kb4::build_and_run(s, i), &mut rng, out)
                 }
             }
         }
@@ -678,8 +683,17 @@ pub fn npo_cells_run(ctx: &Ctx, idx: u64, out: &mut RunOut) {
             let (depth, pre, expose) = (rng.range(1, 6), rng.range(0, 2), rng.chance(3, 4));
             let b = c10::raw_merkle_build_kb4(depth, pre, expose, hs).map_err(|e| e.1);
             let desc = json!({"depth": depth, "pre": pre, "expose_index": expose});
-            npo_cells_core::<crate::uni::Kb4>(ctx, idx, family, b, Poseidon2Config::KOALA_BEAR_D4_W16, desc, &|_, _| Err("raw".into()), &mut rng, out)
+            npo_cells_core::<crate::uni::Kb4>(ctx, idx, family, b, Poseidon2Config::KOALA_BEAR_D4_W16.into(), desc, &|_, _| Err("raw".into()), &mut rng, out)
         }
+    }
+}
+
+/// (merkle_path, new_start) of every permutation row of the circuit's Poseidon1 / Poseidon2 table.
+fn perm_row_flags<F: p3_field::Field, EF: p3_field::ExtensionField<F>>(traces: &p3_circuit::tables::Traces<EF>, cfg: p3_circuit::ops::PermConfig) -> Option<Vec<(bool, bool)>> {
+    use p3_circuit::ops::{NpoTypeId, PermConfig, Poseidon1Trace, Poseidon2Trace};
+    match cfg {
+        PermConfig::Poseidon2(c) => traces.non_primitive_trace::<Poseidon2Trace<F>>(&NpoTypeId::poseidon2_perm(c)).map(|t| t.operations.iter().map(|o| (o.merkle_path, o.new_start)).collect()),
+        PermConfig::Poseidon1(c) => traces.non_primitive_trace::<Poseidon1Trace<F>>(&NpoTypeId::poseidon1_perm(c)).map(|t| t.operations.iter().map(|o| (o.merkle_path, o.new_start)).collect()),
     }
 }
 
@@ -689,7 +703,7 @@ fn npo_cells_core<U: CircuitUni>(
     idx: u64,
     family: &str,
     built: Result<(Circuit<U::EF>, p3_circuit::tables::Traces<U::EF>), String>,
-    p2cfg: p3_circuit::ops::Poseidon2Config,
+    p2cfg: p3_circuit::ops::PermConfig,
     desc: Value,
     rebuild: &dyn Fn(&crate::props::c08::MmcsShape, usize) -> Result<(Circuit<U::EF>, p3_circuit::tables::Traces<U::EF>), String>,
     rng: &mut Rng,
@@ -701,7 +715,7 @@ fn npo_cells_core<U: CircuitUni>(
         out.count("npo_cells_circuit_not_buildable");
         return;
     };
-    let cfg = ProverCfg { npo: BuilderOpts { poseidon: true, recompose: true }, poseidon_w32: family == "a4", ..ProverCfg::default() };
+    let cfg = ProverCfg { npo: BuilderOpts { poseidon: true, recompose: true }, poseidon_w32: family == "a4", poseidon1: family == "p1", ..ProverCfg::default() };
     let Ok((keys, info)) = pipe::keygen::<U>(&circuit, &cfg) else {
         out.count("npo_cells_keygen_failed");
         return;
@@ -720,11 +734,11 @@ fn npo_cells_core<U: CircuitUni>(
         out.count("npo_cells_honest_rejected_skipped");
         return;
     }
-    let Some(p2) = traces.non_primitive_trace::<Poseidon2Trace<U::BF>>(&NpoTypeId::poseidon2_perm(p2cfg)) else {
+    let Some(p2) = perm_row_flags::<U::BF, U::EF>(&traces, p2cfg) else {
         out.count("npo_cells_no_poseidon_trace");
         return;
     };
-    let n_ops = p2.operations.len();
+    let n_ops = p2.len();
     let extra = if family == "a4" { 2 } else { 0 };
     // the Poseidon table is the widest non-primitive table; recompose tables are the narrow ones
     let Some((pt, _)) = mats.iter().enumerate().skip(3).max_by_key(|(_, m)| m.width()) else { return };
@@ -823,7 +837,7 @@ fn npo_cells_core<U: CircuitUni>(
             // multiplicity, no constraint, its cells are don't-cares
             ("recompose", "padding")
         } else if t == pt {
-            (class_of(c), if r >= n_ops { "padding" } else if p2.operations[r].merkle_path && p2.operations[r].new_start { "merkle_start" } else if p2.operations[r].merkle_path { "merkle" } else { "sponge" })
+            (class_of(c), if r >= n_ops { "padding" } else if p2[r].0 && p2[r].1 { "merkle_start" } else if p2[r].0 { "merkle" } else { "sponge" })
         } else {
             ("recompose", "any")
         };
@@ -838,9 +852,9 @@ fn npo_cells_core<U: CircuitUni>(
         let isolated_sum = class == "index_sum"
             && t == pt
             && r < n_ops
-            && p2.operations[r].new_start
-            && !(r + 1 < n_ops && p2.operations[r + 1].merkle_path && !p2.operations[r + 1].new_start)
-            && family != "raw";
+            && p2[r].1
+            && !(r + 1 < n_ops && p2[r + 1].0 && !p2[r + 1].1)
+            && (family != "raw" || desc.get("expose_index").and_then(|x| x.as_bool()) == Some(false));
         let must_reject = match (class, two) {
             ("bit" | "bit2", true) => true,
             ("recompose", _) => row_kind != "padding",
@@ -860,6 +874,57 @@ fn npo_cells_core<U: CircuitUni>(
             out.count("npo_forged_rejected");
         }
     }
+    // direction bit of a Merkle continuation row flipped *and* the index accumulators re-summed
+    // from there to the end of the chain (the single-cell flip is always caught by the accumulator
+    // recurrence): the placement constraints must still reject, on ordinary path rows and on rows
+    // that take an injected digest from the bus
+    if extra == 0 {
+        for r in 1..n_ops.min(mats[pt].height()) {
+            if !(p2[r].0 && !p2[r].1) {
+                continue;
+            }
+            let mut forged = mats.clone();
+            let w = pw;
+            let b = forged[pt].values[r * w + bit_c];
+            forged[pt].values[r * w + bit_c] = U::BF::ONE - b;
+            let mut rr = r;
+            loop {
+                let prev = forged[pt].values[(rr - 1) * w + idx_c];
+                forged[pt].values[rr * w + idx_c] = prev + prev + forged[pt].values[rr * w + bit_c];
+                rr += 1;
+                if rr >= n_ops || rr >= mats[pt].height() || !p2[rr].0 || p2[rr].1 {
+                    break;
+                }
+            }
+            let shared = Arc::new(forged);
+            let s2 = shared.clone();
+            let tamper: Tamper<U::BF> = Box::new(move |m| {
+                for (dst, src) in m.iter_mut().zip(s2.iter()) {
+                    if dst.values.len() == src.values.len() {
+                        dst.values.copy_from_slice(&src.values);
+                    }
+                }
+            });
+            let accepted = (|| -> Result<(), pipe::Fail> {
+                let proof = pipe::prove::<U>(keys, &traces, &cfg, Some(tamper))?;
+                pipe::verify::<U>(&proof, &cfg, &info.commitment)
+            })()
+            .is_ok();
+            out.evals += 1;
+            out.steps += 1;
+            out.count("npo_fired_bitflip_resum");
+            out.distinct.insert(crate::core::prng::fnv64(format!("npo:{family}:bitflip_resum").as_bytes()));
+            if accepted {
+                out.violate(
+                    format!("npo_bitflip_resum:{family}:merkle"),
+                    format!("{family} circuit: direction bit of Merkle continuation row {r} flipped and the index accumulators of the rest of the chain re-summed: the proof is ACCEPTED although the row's inputs are no longer placed as the bit says"),
+                    json!({"npo_cells": true, "idx": idx, "family": family, "desc": desc, "bitflip_resum_row": r}),
+                );
+            } else {
+                out.count("npo_forged_rejected");
+            }
+        }
+    }
     // path transplant: the Merkle-path rows of an honest opening at another index (same cap entry)
     // replace those of this opening; opened values, leaf hashing, claimed index bits and every
     // other table stay those of this opening. Both paths end in the same root, so only a tie
@@ -874,13 +939,13 @@ fn npo_cells_core<U: CircuitUni>(
                 let b2 = crate::core::pool::observe(|| rebuild(&shape, other % max_h)).unwrap_or_else(Err);
                 if let Ok((c2, t2)) = b2 {
                     if let Ok((k2, _)) = pipe::keygen::<U>(&c2, &cfg) {
-                        if let (Ok(Ok(m2)), Some(p2b)) = (crate::core::pool::observe(|| capture_matrices::<U>(&k2, &t2, &cfg)), t2.non_primitive_trace::<Poseidon2Trace<U::BF>>(&NpoTypeId::poseidon2_perm(p2cfg))) {
-                            if m2.len() == mats.len() && m2[pt].values.len() == mats[pt].values.len() && p2b.operations.len() == n_ops {
+                        if let (Ok(Ok(m2)), Some(p2b)) = (crate::core::pool::observe(|| capture_matrices::<U>(&k2, &t2, &cfg)), perm_row_flags::<U::BF, U::EF>(&t2, p2cfg)) {
+                            if m2.len() == mats.len() && m2[pt].values.len() == mats[pt].values.len() && p2b.len() == n_ops {
                                 let mut forged = mats.clone();
                                 let w = forged[pt].width();
                                 let mut moved = 0;
                                 for r in 0..n_ops {
-                                    if p2.operations[r].merkle_path && p2b.operations[r].merkle_path {
+                                    if p2[r].0 && p2b[r].0 {
                                         forged[pt].values[r * w..(r + 1) * w].copy_from_slice(&m2[pt].values[r * w..(r + 1) * w]);
                                         moved += 1;
                                     }
